@@ -105,10 +105,10 @@ func findGuard(v ssa.Value) *guardSpec {
 	if !ok {
 		return nil
 	}
-	fname := st.Field(idx).Name()
+	fname := core.VarName(st.Field(idx))
 	for i := range guardTable {
 		g := &guardTable[i]
-		if n.Obj().Pkg().Path() == g.pkg && n.Obj().Name() == g.typ && fname == g.field {
+		if n.Obj().Pkg().Path() == g.pkg && core.TName(n) == g.typ && fname == g.field {
 			return g
 		}
 	}
